@@ -374,6 +374,11 @@ func (in *inst) xop(op string, arg string) (t0, t1 int64, res string) {
 			for _, c := range arg {
 				in.fs.faults = append(in.fs.faults, c == '1')
 			}
+		case "PROBE":
+			// force every index entry to be loaded (Type goes through readKey)
+			for _, m := range in.n.VerifDump() {
+				in.n.Type(m.Name)
+			}
 		case "SLEEP":
 			ms, _ := strconv.Atoi(arg)
 			time.Sleep(time.Duration(ms) * time.Millisecond)
